@@ -46,6 +46,7 @@ type Exec struct {
 	foot     *footprint
 	misc     map[string]Value
 	crashAt   string
+	ev        *eventState
 	encLog    []sym.Sc
 	regexps   map[*Value]string
 	allocHook func(instr *ssa.MakeSlice, elem types.Type, n sym.Sc)
@@ -461,6 +462,11 @@ func (e *Exec) CallValue(fn Value, args ...Value) Value {
 func (e *Exec) callSSA(caller *frame, fn *ssa.Function, args []Value, env []Value) Value {
 	if fn.Parent() == nil || fn.Synthetic == "" {
 		name := fn.String()
+		if e.ev != nil {
+			if in, ok := eventModels[name]; ok {
+				return in(e, caller, fn, args)
+			}
+		}
 		if in := e.M.intrinsic(fn, name); in != nil {
 			return in(e, caller, fn, args)
 		}
